@@ -34,10 +34,10 @@ open KotoVerif KotoVerif.Match KotoVerif.Unpack
 /-- The matcher succeeds with registers `ρ'` exactly when the declarative definition yields
 bindings `β` and `ρ'` is `ρ` with `β` written — for every well-formed pattern (any nesting) and
 every range-free value. It never takes the `match_end` jump in a last alternative. -/
-theorem pat_spec (F : FloatOps) (p : Pat) (v : Val) (ρ ρ' : Env) (il : Bool)
+theorem pat_spec (F : FloatOps) (C : Cfg) (p : Pat) (v : Val) (ρ ρ' : Env) (il : Bool)
     (hw : wf p = true) (hv : noRange v = true) :
-    mPat F true p il (.direct (.tmp v)) ρ = .ok ρ' ↔ ∃ β, Decl F p v β ∧ ρ' = ρ.apply β := by
-  have sp := spec_pat F p hw il (.direct (.tmp v)) ρ v (Or.inl rfl) hv
+    mPat F C true p il (.direct (.tmp v)) ρ = .ok ρ' ↔ ∃ β, Decl F p v β ∧ ρ' = ρ.apply β := by
+  have sp := spec_pat (C := C) F p hw il (.direct (.tmp v)) ρ v (Or.inl rfl) hv
   constructor
   · exact sp.2.1 ρ'
   · rintro ⟨β, hd, rfl⟩; exact sp.1 β hd
@@ -45,11 +45,11 @@ theorem pat_spec (F : FloatOps) (p : Pat) (v : Val) (ρ ρ' : Env) (il : Bool)
 /-- index arithmetic ≡ list splitting, for tuples: `(pre…, rest?, post…)` matches `xs` iff
 `xs = a ++ mid ++ b` with the fixed parts matching element-wise (`|a| = |pre|`, `|b| = |post|`),
 `mid = []` unless there is an ellipsis, and `rest` bound to the tuple of the middle. -/
-theorem seq_pat_spec (F : FloatOps) (pre post : List Pat) (rest : Option (Option Name)) (xs : List Val)
+theorem seq_pat_spec (F : FloatOps) (C : Cfg) (pre post : List Pat) (rest : Option (Option Name)) (xs : List Val)
     (ρ ρ' : Env) (hw : wf (.seq pre rest post) = true) (hv : noRangeL xs = true) :
-    mPat F true (.seq pre rest post) true (.direct (.tmp (.tuple xs))) ρ = .ok ρ' ↔
+    mPat F C true (.seq pre rest post) true (.direct (.tmp (.tuple xs))) ρ = .ok ρ' ↔
       ∃ β, DeclSeq F pre rest post xs (fun i j => .tuple ((xs.drop i).take (j - i))) β ∧ ρ' = ρ.apply β := by
-  rw [pat_spec F _ _ ρ ρ' true hw (by simpa [noRange] using hv)]
+  rw [pat_spec F C _ _ ρ ρ' true hw (by simpa [noRange] using hv)]
   constructor
   · rintro ⟨β, hd, rfl⟩
     simp only [Decl, view, Option.some.injEq, Prod.mk.injEq] at hd
@@ -59,11 +59,11 @@ theorem seq_pat_spec (F : FloatOps) (pre post : List Pat) (rest : Option (Option
     exact ⟨β, by simp only [Decl, view]; exact ⟨xs, _, a, mid, b, β₁, β₂, rfl, h⟩, rfl⟩
 
 /-- the same for lists (`rest` is bound to a new list) -/
-theorem seq_pat_spec_list (F : FloatOps) (pre post : List Pat) (rest : Option (Option Name)) (xs : List Val)
+theorem seq_pat_spec_list (F : FloatOps) (C : Cfg) (pre post : List Pat) (rest : Option (Option Name)) (xs : List Val)
     (ρ ρ' : Env) (hw : wf (.seq pre rest post) = true) (hv : noRangeL xs = true) :
-    mPat F true (.seq pre rest post) true (.direct (.tmp (.list xs))) ρ = .ok ρ' ↔
+    mPat F C true (.seq pre rest post) true (.direct (.tmp (.list xs))) ρ = .ok ρ' ↔
       ∃ β, DeclSeq F pre rest post xs (fun i j => .list ((xs.drop i).take (j - i))) β ∧ ρ' = ρ.apply β := by
-  rw [pat_spec F _ _ ρ ρ' true hw (by simpa [noRange] using hv)]
+  rw [pat_spec F C _ _ ρ ρ' true hw (by simpa [noRange] using hv)]
   constructor
   · rintro ⟨β, hd, rfl⟩
     simp only [Decl, view, Option.some.injEq, Prod.mk.injEq] at hd
@@ -73,7 +73,7 @@ theorem seq_pat_spec_list (F : FloatOps) (pre post : List Pat) (rest : Option (O
     exact ⟨β, by simp only [Decl, view]; exact ⟨xs, _, a, mid, b, β₁, β₂, rfl, h⟩, rfl⟩
 
 /-- the split is determined by the patterns: the fixed parts have the patterns' lengths -/
-theorem seq_split_lengths (F : FloatOps) (pre post : List Pat) (rest : Option (Option Name))
+theorem seq_split_lengths (F : FloatOps) (C : Cfg) (pre post : List Pat) (rest : Option (Option Name))
     (xs : List Val) (sl : Nat → Nat → Val) (β : Writes) (h : DeclSeq F pre rest post xs sl β) :
     pre.length + post.length ≤ xs.length ∧ (rest = none → xs.length = pre.length + post.length) := by
   obtain ⟨a, mid, b, β₁, β₂, rfl, hm, h1, h2, _⟩ := h
@@ -84,11 +84,11 @@ theorem seq_split_lengths (F : FloatOps) (pre post : List Pat) (rest : Option (O
   · intro hr; simp [hm hr]; omega
 
 /-- map patterns: every listed key is present, the hints hold, named entries are bound -/
-theorem map_pat_spec (F : FloatOps) (es : List Ent) (ty : Option Ty) (v : Val) (ρ ρ' : Env)
+theorem map_pat_spec (F : FloatOps) (C : Cfg) (es : List Ent) (ty : Option Ty) (v : Val) (ρ ρ' : Env)
     (hv : noRange v = true) :
-    mPat F true (.map es ty) true (.direct (.tmp v)) ρ = .ok ρ' ↔
+    mPat F C true (.map es ty) true (.direct (.tmp v)) ρ = .ok ρ' ↔
       tyFail ty v = false ∧ ∃ β, DeclEnts es v β ∧ ρ' = ρ.apply β := by
-  rw [pat_spec F _ _ ρ ρ' true rfl hv]
+  rw [pat_spec F C _ _ ρ ρ' true rfl hv]
   simp only [Decl]
   constructor
   · rintro ⟨β, ⟨h1, h2⟩, rfl⟩; exact ⟨h1, β, h2, rfl⟩
@@ -117,21 +117,21 @@ theorem map_keys_present : ∀ (es : List Ent) (m : List (Val × Val)) (β : Wri
     · exact map_keys_present es m β' hd e' h'
 
 /-- literal patterns select by equality and bind nothing -/
-theorem lit_pat_spec (F : FloatOps) (l : Lit) (v : Val) (ρ : Env) (il : Bool) :
-    mPat F true (.lit l) il (.direct (.tmp v)) ρ = (if litEq F l v then .ok ρ else .fail ρ) := by
+theorem lit_pat_spec (F : FloatOps) (C : Cfg) (l : Lit) (v : Val) (ρ : Env) (il : Bool) :
+    mPat F C true (.lit l) il (.direct (.tmp v)) ρ = (if litEq F l v then .ok ρ else .fail ρ) := by
   simp [mPat, fetch, Src.rd]
 
-theorem id_always (F : FloatOps) (x : Name) (v : Val) (ρ : Env) (il : Bool) :
-    mPat F true (.id x none) il (.direct (.tmp v)) ρ = .ok (ρ.set x v) := by
+theorem id_always (F : FloatOps) (C : Cfg) (x : Name) (v : Val) (ρ : Env) (il : Bool) :
+    mPat F C true (.id x none) il (.direct (.tmp v)) ρ = .ok (ρ.set x v) := by
   simp [mPat, fetch, Src.rd, tyFail]
 
-theorem wildcard_always (F : FloatOps) (a : Acc) (ρ : Env) (il : Bool) :
-    mPat F true (.wild none) il a ρ = .ok ρ := by
+theorem wildcard_always (F : FloatOps) (C : Cfg) (a : Acc) (ρ : Env) (il : Bool) :
+    mPat F C true (.wild none) il a ρ = .ok ρ := by
   simp [mPat]
 
 /-- type-hinted patterns are checks that fall through (never an error) -/
-theorem typed_id_checks (F : FloatOps) (x : Name) (t : Ty) (v : Val) (ρ : Env) (il : Bool) :
-    mPat F true (.id x (some t)) il (.direct (.tmp v)) ρ =
+theorem typed_id_checks (F : FloatOps) (C : Cfg) (x : Name) (t : Ty) (v : Val) (ρ : Env) (il : Bool) :
+    mPat F C true (.id x (some t)) il (.direct (.tmp v)) ρ =
       (if tyOk t v then .ok (ρ.set x v) else .fail (ρ.set x v)) := by
   simp only [mPat, fetch, Src.rd, tyFail, fin_true]
   cases tyOk t v <;> simp
@@ -140,42 +140,42 @@ theorem typed_id_checks (F : FloatOps) (x : Name) (t : Ty) (v : Val) (ρ : Env) 
 
 /-- on success the registers are `ρ` with the pattern's variables written, in pattern order,
 and nothing else -/
-theorem binds_exactly (F : FloatOps) (p : Pat) (v : Val) (ρ ρ' : Env) (il : Bool)
+theorem binds_exactly (F : FloatOps) (C : Cfg) (p : Pat) (v : Val) (ρ ρ' : Env) (il : Bool)
     (hw : wf p = true) (hv : noRange v = true)
-    (h : mPat F true p il (.direct (.tmp v)) ρ = .ok ρ') :
+    (h : mPat F C true p il (.direct (.tmp v)) ρ = .ok ρ') :
     (∃ β, ρ' = ρ.apply β ∧ β.map Prod.fst = patVars p) ∧ ∀ y, y ∉ patVars p → ρ' y = ρ y := by
-  obtain ⟨β, hd, rfl⟩ := (pat_spec F p v ρ ρ' il hw hv).1 h
+  obtain ⟨β, hd, rfl⟩ := (pat_spec F C p v ρ ρ' il hw hv).1 h
   have hn := decl_names F p v β hd
   exact ⟨⟨β, rfl, hn⟩, fun y hy => apply_frame ρ β y (by rwa [hn])⟩
 
 /-! ## arm selection -/
 
 /-- arm is passed over: no alternative matches, or one does and the guard is false -/
-def Skips (F : FloatOps) (arm : Arm) (s : Src) (ρ ρ' : Env) : Prop :=
+def Skips (F : FloatOps) (C : Cfg) (arm : Arm) (s : Src) (ρ ρ' : Env) : Prop :=
   arm.alts ≠ [] ∧
-    (mAlts F arm.alts s ρ = .unmatched ρ' ∨
-      (mAlts F arm.alts s ρ = .matched ρ' ∧ ∃ g, arm.guard = some g ∧ g ρ' = false))
+    (mAlts F C arm.alts s ρ = .unmatched ρ' ∨
+      (mAlts F C arm.alts s ρ = .matched ρ' ∧ ∃ g, arm.guard = some g ∧ g ρ' = false))
 
 /-- arm is taken: `else`, or some alternative matches and the guard (if any) is true -/
-def Selects (F : FloatOps) (arm : Arm) (s : Src) (ρ ρ' : Env) : Prop :=
+def Selects (F : FloatOps) (C : Cfg) (arm : Arm) (s : Src) (ρ ρ' : Env) : Prop :=
   (arm.alts = [] ∧ ρ' = ρ) ∨
-    (arm.alts ≠ [] ∧ mAlts F arm.alts s ρ = .matched ρ' ∧ ∀ g, arm.guard = some g → g ρ' = true)
+    (arm.alts ≠ [] ∧ mAlts F C arm.alts s ρ = .matched ρ' ∧ ∀ g, arm.guard = some g → g ρ' = true)
 
-def SkipsAll (F : FloatOps) : List Arm → Src → Env → Env → Prop
+def SkipsAll (F : FloatOps) (C : Cfg) : List Arm → Src → Env → Env → Prop
   | [], _, ρ, ρ' => ρ' = ρ
-  | a :: as, s, ρ, ρ' => ∃ ρ₁, Skips F a s ρ ρ₁ ∧ SkipsAll F as s ρ₁ ρ'
+  | a :: as, s, ρ, ρ' => ∃ ρ₁, Skips F C a s ρ ρ₁ ∧ SkipsAll F C as s ρ₁ ρ'
 
-theorem evalArms_skip (F : FloatOps) (arm : Arm) (arms : List Arm) (i : Nat) (s : Src) (ρ ρ₁ : Env)
-    (h : Skips F arm s ρ ρ₁) :
-    (evalArms F (arm :: arms) i s ρ).out = (evalArms F arms (i + 1) s ρ₁).out := by
+theorem evalArms_skip (F : FloatOps) (C : Cfg) (arm : Arm) (arms : List Arm) (i : Nat) (s : Src) (ρ ρ₁ : Env)
+    (h : Skips F C arm s ρ ρ₁) :
+    (evalArms F C (arm :: arms) i s ρ).out = (evalArms F C arms (i + 1) s ρ₁).out := by
   obtain ⟨hne, h | ⟨h, g, hg, hf⟩⟩ := h
   · have : arm.alts.isEmpty = false := by cases ha : arm.alts <;> simp_all
     simp [evalArms, this, h]
   · have : arm.alts.isEmpty = false := by cases ha : arm.alts <;> simp_all
     simp [evalArms, this, h, hg, hf]
 
-theorem evalArms_select (F : FloatOps) (arm : Arm) (arms : List Arm) (i : Nat) (s : Src) (ρ ρ' : Env)
-    (h : Selects F arm s ρ ρ') : (evalArms F (arm :: arms) i s ρ).out = .arm i ρ' := by
+theorem evalArms_select (F : FloatOps) (C : Cfg) (arm : Arm) (arms : List Arm) (i : Nat) (s : Src) (ρ ρ' : Env)
+    (h : Selects F C arm s ρ ρ') : (evalArms F C (arm :: arms) i s ρ).out = .arm i ρ' := by
   rcases h with ⟨he, rfl⟩ | ⟨hne, h, hg⟩
   · simp [evalArms, he]
   · have : arm.alts.isEmpty = false := by cases ha : arm.alts <;> simp_all
@@ -186,24 +186,24 @@ theorem evalArms_select (F : FloatOps) (arm : Arm) (arms : List Arm) (i : Nat) (
 /-- the arm that runs is the first one that has a matching alternative and a true guard:
 if all arms before it are passed over and it is selected, it runs with the bindings of its
 matching alternative -/
-theorem first_match (F : FloatOps) (before : List Arm) (arm : Arm) (after : List Arm) (i : Nat)
-    (s : Src) (ρ ρk ρ' : Env) (hs : SkipsAll F before s ρ ρk) (hsel : Selects F arm s ρk ρ') :
-    (evalArms F (before ++ arm :: after) i s ρ).out = .arm (i + before.length) ρ' := by
+theorem first_match (F : FloatOps) (C : Cfg) (before : List Arm) (arm : Arm) (after : List Arm) (i : Nat)
+    (s : Src) (ρ ρk ρ' : Env) (hs : SkipsAll F C before s ρ ρk) (hsel : Selects F C arm s ρk ρ') :
+    (evalArms F C (before ++ arm :: after) i s ρ).out = .arm (i + before.length) ρ' := by
   induction before generalizing i ρ with
   | nil =>
     simp only [SkipsAll] at hs; subst hs
-    simpa using evalArms_select F arm after i s _ ρ' hsel
+    simpa using evalArms_select F C arm after i s _ ρ' hsel
   | cons a as ih =>
     obtain ⟨ρ₁, h1, h2⟩ := hs
-    rw [List.cons_append, evalArms_skip F a _ i s ρ ρ₁ h1, ih (i + 1) ρ₁ h2]
+    rw [List.cons_append, evalArms_skip F C a _ i s ρ ρ₁ h1, ih (i + 1) ρ₁ h2]
     simp; omega
 
 /-- conversely: whatever arm runs, every arm before it was passed over and it was selected —
 so the index is the least one with (some alternative matches) ∧ (guard true) -/
-theorem first_match_conv (F : FloatOps) : ∀ (arms : List Arm) (i j : Nat) (s : Src) (ρ ρ' : Env),
-    (evalArms F arms i s ρ).out = .arm j ρ' →
+theorem first_match_conv (F : FloatOps) (C : Cfg) : ∀ (arms : List Arm) (i j : Nat) (s : Src) (ρ ρ' : Env),
+    (evalArms F C arms i s ρ).out = .arm j ρ' →
     ∃ before arm after ρk, arms = before ++ arm :: after ∧ j = i + before.length ∧
-      SkipsAll F before s ρ ρk ∧ Selects F arm s ρk ρ'
+      SkipsAll F C before s ρ ρk ∧ Selects F C arm s ρk ρ'
   | [], i, j, s, ρ, ρ', h => by simp [evalArms] at h
   | arm :: arms, i, j, s, ρ, ρ', h => by
     by_cases he : arm.alts = []
@@ -212,11 +212,11 @@ theorem first_match_conv (F : FloatOps) : ∀ (arms : List Arm) (i j : Nat) (s :
       exact ⟨[], arm, arms, ρ, rfl, rfl, rfl, Or.inl ⟨he, rfl⟩⟩
     · have hie : arm.alts.isEmpty = false := by cases ha : arm.alts <;> simp_all
       simp only [evalArms, hie] at h
-      cases hm : mAlts F arm.alts s ρ with
+      cases hm : mAlts F C arm.alts s ρ with
       | err e => simp [hm] at h
       | unmatched ρ₁ =>
         simp only [hm] at h
-        obtain ⟨before, arm', after, ρk, rfl, rfl, hs, hsel⟩ := first_match_conv F arms (i + 1) j s ρ₁ ρ' (by simpa using h)
+        obtain ⟨before, arm', after, ρk, rfl, rfl, hs, hsel⟩ := first_match_conv F C arms (i + 1) j s ρ₁ ρ' (by simpa using h)
         exact ⟨arm :: before, arm', after, ρk, rfl, by simp; omega, ⟨ρ₁, ⟨he, Or.inl hm⟩, hs⟩, hsel⟩
       | matched ρ₁ =>
         simp only [hm] at h
@@ -232,21 +232,21 @@ theorem first_match_conv (F : FloatOps) : ∀ (arms : List Arm) (i j : Nat) (s :
             obtain ⟨rfl, rfl⟩ := h
             exact ⟨[], arm, arms, ρ, rfl, rfl, rfl, Or.inr ⟨he, hm, by intro g' hg'; rw [hg] at hg'; cases hg'; exact hgt⟩⟩
           · simp [hgt] at h
-            obtain ⟨before, arm', after, ρk, rfl, rfl, hs, hsel⟩ := first_match_conv F arms (i + 1) j s ρ₁ ρ' h
+            obtain ⟨before, arm', after, ρk, rfl, rfl, hs, hsel⟩ := first_match_conv F C arms (i + 1) j s ρ₁ ρ' h
             exact ⟨arm :: before, arm', after, ρk, rfl, by simp; omega,
               ⟨ρ₁, ⟨he, Or.inr ⟨hm, g, hg, by simpa using hgt⟩⟩, hs⟩, hsel⟩
 
 /-- no arm matches ⇒ the match yields Null (`Out.none`), and only then -/
-theorem no_match_null (F : FloatOps) : ∀ (arms : List Arm) (i : Nat) (s : Src) (ρ ρ' : Env),
-    (evalArms F arms i s ρ).out = .none ρ' ↔ SkipsAll F arms s ρ ρ'
+theorem no_match_null (F : FloatOps) (C : Cfg) : ∀ (arms : List Arm) (i : Nat) (s : Src) (ρ ρ' : Env),
+    (evalArms F C arms i s ρ).out = .none ρ' ↔ SkipsAll F C arms s ρ ρ'
   | [], i, s, ρ, ρ' => by simp [evalArms, SkipsAll, eq_comm]
   | arm :: arms, i, s, ρ, ρ' => by
-    have ih := fun ρ₁ => no_match_null F arms (i + 1) s ρ₁ ρ'
+    have ih := fun ρ₁ => no_match_null F C arms (i + 1) s ρ₁ ρ'
     by_cases he : arm.alts = []
     · simp [evalArms, he, SkipsAll, Skips]
     · have hie : arm.alts.isEmpty = false := by cases ha : arm.alts <;> simp_all
       simp only [evalArms, hie, SkipsAll, Skips]
-      cases hm : mAlts F arm.alts s ρ with
+      cases hm : mAlts F C arm.alts s ρ with
       | err e => simp
       | unmatched ρ₁ =>
         simp only [Bool.false_eq_true, if_false]
@@ -276,8 +276,8 @@ theorem no_match_null (F : FloatOps) : ∀ (arms : List Arm) (i : Nat) (s : Src)
               · cases h
               · cases h; exact h2
 
-theorem evalArms_no_subj (F : FloatOps) : ∀ (arms : List Arm) (i : Nat) (s : Src) (ρ : Env),
-    Ev.subj ∉ (evalArms F arms i s ρ).trace
+theorem evalArms_no_subj (F : FloatOps) (C : Cfg) : ∀ (arms : List Arm) (i : Nat) (s : Src) (ρ : Env),
+    Ev.subj ∉ (evalArms F C arms i s ρ).trace
   | [], _, _, _ => by simp [evalArms]
   | arm :: arms, i, s, ρ => by
     simp only [evalArms]
@@ -285,62 +285,87 @@ theorem evalArms_no_subj (F : FloatOps) : ∀ (arms : List Arm) (i : Nat) (s : S
     · simp
     · split
       · simp
-      · exact evalArms_no_subj F arms (i + 1) s _
+      · exact evalArms_no_subj F C arms (i + 1) s _
       · split
         · simp
         · split
           · simp
           · simp only [List.mem_cons, reduceCtorEq, false_or]
-            exact evalArms_no_subj F arms (i + 1) s _
+            exact evalArms_no_subj F C arms (i + 1) s _
 
 /-- the subject expression is evaluated exactly once, before any guard or body -/
-theorem subject_once (F : FloatOps) (v : Val) (arms : List Arm) (ρ : Env) :
-    (evalMatch F (.expr v) arms ρ).trace.count .subj = 1 ∧
-      (evalMatch F (.expr v) arms ρ).trace.head? = some .subj := by
-  have h := evalArms_no_subj F arms 0 (.tmp v) ρ
+theorem subject_once (F : FloatOps) (C : Cfg) (v : Val) (arms : List Arm) (ρ : Env) :
+    (evalMatch F C (.expr v) arms ρ).trace.count .subj = 1 ∧
+      (evalMatch F C (.expr v) arms ρ).trace.head? = some .subj := by
+  have h := evalArms_no_subj F C arms 0 (.tmp v) ρ
   simp [evalMatch, List.count_eq_zero.mpr h]
 
 /-! ## deviations from the guide: shapes (for all inputs) and witnesses -/
 
-/-- F-C03-1: *every* parenthesised pattern with an ellipsis (any fixed parts, anonymous or named,
-last or non-last alternative) raises on *every* value without a size -/
-theorem ellipsis_on_unsized_raises (F : FloatOps) (la il : Bool) (pre post : List Pat) (r : Option Name)
-    (v : Val) (ρ : Env) (hshape : pre = [] ∨ post = []) (hv : vmSize v = none) :
-    mPat F la (.seq pre (some r) post) il (.direct (.tmp v)) ρ = .err .geNull := by
-  rcases hshape with rfl | rfl <;> simp [mPat, container, Src.rd, sizeCheck, hv, restCount]
+/-- F-C03-1 (the recorded tree, `sizeNullJumps = false`): *every* parenthesised pattern with an
+ellipsis (any fixed parts, anonymous or named, last or non-last alternative) raises on *every*
+value without a size -/
+theorem ellipsis_on_unsized_raises (F : FloatOps) (C : Cfg) (la il : Bool) (pre post : List Pat) (r : Option Name)
+    (v : Val) (ρ : Env) (hC : C.sizeNullJumps = false) (hshape : pre = [] ∨ post = []) (hv : vmSize v = none) :
+    mPat F C la (.seq pre (some r) post) il (.direct (.tmp v)) ρ = .err .geNull := by
+  rcases hshape with rfl | rfl <;> simp [mPat, container, Src.rd, sizeCheck, hv, restCount, hC]
+
+/-- …and with the repair `requests/C03-fix-1.diff` (`sizeNullJumps = true`) the same patterns fall
+through on the same values, writing nothing -/
+theorem ellipsis_on_unsized_falls_through_repaired (F : FloatOps) (C : Cfg) (la il : Bool) (pre post : List Pat)
+    (r : Option Name) (v : Val) (ρ : Env) (hC : C.sizeNullJumps = true) (hshape : pre = [] ∨ post = [])
+    (hv : vmSize v = none) :
+    mPat F C la (.seq pre (some r) post) il (.direct (.tmp v)) ρ = .fail ρ := by
+  rcases hshape with rfl | rfl <;> simp [mPat, container, Src.rd, sizeCheck, hv, restCount, hC]
 
 /-- …whereas without an ellipsis the same value falls through, as documented -/
-theorem exact_on_unsized_falls_through (F : FloatOps) (la il : Bool) (pre : List Pat) (v : Val) (ρ : Env)
+theorem exact_on_unsized_falls_through (F : FloatOps) (C : Cfg) (la il : Bool) (pre : List Pat) (v : Val) (ρ : Env)
     (hpre : pre ≠ []) (hv : vmSize v = none) :
-    mPat F la (.seq pre none []) il (.direct (.tmp v)) ρ = .fail ρ := by
+    mPat F C la (.seq pre none []) il (.direct (.tmp v)) ρ = .fail ρ := by
   rw [mPat_exact F la il pre _ ρ (.tmp v) hpre rfl]
   simp [Src.rd, sizeCheck, hv]
 
-/-- F-C03-4: a map pattern with at least one key raises on null (and on booleans) -/
-theorem map_on_null_raises (F : FloatOps) (la il : Bool) (e : Ent) (es : List Ent) (ρ : Env) :
-    mPat F la (.map (e :: es) none) il (.direct (.tmp .null)) ρ = .err .access ∧
-    ∀ b, mPat F la (.map (e :: es) none) il (.direct (.tmp (.bool b))) ρ = .err .access := by
-  simp [mPat, container, Src.rd, tyFail, mEnts, tryAccess]
+/-- F-C03-4 (recorded tree): a map pattern with at least one key raises on null and on booleans -/
+theorem map_on_null_raises (F : FloatOps) (C : Cfg) (la il : Bool) (e : Ent) (es : List Ent) (ρ : Env)
+    (hC : C.accessFalls = false) :
+    mPat F C la (.map (e :: es) none) il (.direct (.tmp .null)) ρ = .err .access ∧
+    ∀ b, mPat F C la (.map (e :: es) none) il (.direct (.tmp (.bool b))) ρ = .err .access := by
+  simp [mPat, container, Src.rd, tyFail, mEnts, tryAccess, hC]
 
-/-- F-C03-5: `(rest...)` on any range raises (Size and TempIndex accept ranges, SliceFrom does
-not) while `(...)` matches it -/
-theorem named_rest_on_range_raises (F : FloatOps) (il : Bool) (a e : Int64) (incl : Bool) (x : Name) (ρ : Env) :
-    mPat F true (.seq [] (some (some x)) []) il (.direct (.tmp (.range (some a) (some (e, incl))))) ρ = .err .slice ∧
-    mPat F true (.seq [] (some none) []) il (.direct (.tmp (.range (some a) (some (e, incl))))) ρ = .ok ρ := by
-  constructor <;> simp [mPat, container, Src.rd, sizeCheck, vmSize, restCount, mPats, sliceFrom]
+/-- with `requests/C03-fix-4.diff` it falls through -/
+theorem map_on_null_falls_through_repaired (F : FloatOps) (C : Cfg) (la il : Bool) (e : Ent) (es : List Ent)
+    (ρ : Env) (hC : C.accessFalls = true) :
+    mPat F C la (.map (e :: es) none) il (.direct (.tmp .null)) ρ = .fail ρ ∧
+    ∀ b, mPat F C la (.map (e :: es) none) il (.direct (.tmp (.bool b))) ρ = .fail ρ := by
+  simp [mPat, container, Src.rd, tyFail, mEnts, tryAccess, hC]
+
+/-- F-C03-5 (recorded tree): `(rest...)` on any bounded range raises (Size and TempIndex accept
+ranges, SliceFrom does not) while `(...)` matches it -/
+theorem named_rest_on_range_raises (F : FloatOps) (C : Cfg) (il : Bool) (a e : Int64) (incl : Bool) (x : Name)
+    (ρ : Env) (hC : C.rangeSlices = false) :
+    mPat F C true (.seq [] (some (some x)) []) il (.direct (.tmp (.range (some a) (some (e, incl))))) ρ = .err .slice ∧
+    mPat F C true (.seq [] (some none) []) il (.direct (.tmp (.range (some a) (some (e, incl))))) ρ = .ok ρ := by
+  constructor <;> simp [mPat, container, Src.rd, sizeCheck, vmSize, restCount, mPats, sliceFrom, hC]
+
+/-- with `requests/C03-fix-5.diff` it never raises: `(rest...)` binds a range -/
+theorem named_rest_on_range_binds_repaired (F : FloatOps) (C : Cfg) (il : Bool) (a e : Int64) (incl : Bool)
+    (x : Name) (ρ : Env) (hC : C.rangeSlices = true) :
+    mPat F C true (.seq [] (some (some x)) []) il (.direct (.tmp (.range (some a) (some (e, incl))))) ρ
+      = .ok (ρ.set x (mkRange (rangeBounds a e incl).1 (rangeBounds a e incl).2)) := by
+  simp [mPat, container, Src.rd, sizeCheck, vmSize, restCount, mPats, sliceFrom, hC, sidx]
 
 /-- what "no arm matches ⇒ next arm" needs: if the run of a well-formed pattern on a range-free
 value raised no error, then it fails exactly when the declarative definition has no match -/
-theorem no_match_falls_through_partial (F : FloatOps) (p : Pat) (v : Val) (ρ : Env) (il : Bool)
+theorem no_match_falls_through_partial (F : FloatOps) (C : Cfg) (p : Pat) (v : Val) (ρ : Env) (il : Bool)
     (hw : wf p = true) (hv : noRange v = true)
-    (hnoerr : ∀ e, mPat F true p il (.direct (.tmp v)) ρ ≠ .err e) :
-    (∃ ρ', mPat F true p il (.direct (.tmp v)) ρ = .fail ρ') ↔ ¬ ∃ β, Decl F p v β := by
-  have sp := spec_pat F p hw il (.direct (.tmp v)) ρ v (Or.inl rfl) hv
+    (hnoerr : ∀ e, mPat F C true p il (.direct (.tmp v)) ρ ≠ .err e) :
+    (∃ ρ', mPat F C true p il (.direct (.tmp v)) ρ = .fail ρ') ↔ ¬ ∃ β, Decl F p v β := by
+  have sp := spec_pat (C := C) F p hw il (.direct (.tmp v)) ρ v (Or.inl rfl) hv
   constructor
   · rintro ⟨ρ', h⟩ ⟨β, hd⟩
     rw [sp.1 β hd] at h; cases h
   · intro hno
-    cases hr : mPat F true p il (.direct (.tmp v)) ρ with
+    cases hr : mPat F C true p il (.direct (.tmp v)) ρ with
     | ok ρ1 => obtain ⟨β, hd, _⟩ := sp.2.1 ρ1 hr; exact absurd ⟨β, hd⟩ hno
     | done ρ1 => exact absurd hr (sp.2.2 _)
     | fail ρ1 => exact ⟨ρ1, rfl⟩
@@ -350,32 +375,32 @@ theorem no_match_falls_through_partial (F : FloatOps) (p : Pat) (v : Val) (ρ : 
 On every well-formed pattern that is `earlyFree` — no non-empty parenthesised pattern stands in a
 non-last position of another one — this is again exactly the declarative definition, for any
 nesting.  The hypothesis excludes precisely the shape of F-C03-3 (witness below), hence `_partial`. -/
-theorem nonlast_alt_spec_partial (F : FloatOps) (p : Pat) (v : Val) (ρ ρ' : Env)
+theorem nonlast_alt_spec_partial (F : FloatOps) (C : Cfg) (p : Pat) (v : Val) (ρ ρ' : Env)
     (hw : wf p = true) (he : earlyFree p = true) (hv : noRange v = true) :
-    mPat F false p true (.direct (.tmp v)) ρ = .done ρ' ↔ ∃ β, Decl F p v β ∧ ρ' = ρ.apply β := by
-  have sp := specN_pat F p hw he (.direct (.tmp v)) ρ v (Or.inl rfl) hv
+    mPat F C false p true (.direct (.tmp v)) ρ = .done ρ' ↔ ∃ β, Decl F p v β ∧ ρ' = ρ.apply β := by
+  have sp := specN_pat (C := C) F p hw he (.direct (.tmp v)) ρ v (Or.inl rfl) hv
   constructor
   · exact sp.2 ρ'
   · rintro ⟨β, hd, rfl⟩; exact sp.1 β hd
 
 /-- the same without any side condition for patterns that are not parenthesised -/
-theorem nonlast_alt_flat_spec (F : FloatOps) (p : Pat) (v : Val) (ρ ρ' : Env)
+theorem nonlast_alt_flat_spec (F : FloatOps) (C : Cfg) (p : Pat) (v : Val) (ρ ρ' : Env)
     (hflat : notSeq p = true) (hv : noRange v = true) :
-    mPat F false p true (.direct (.tmp v)) ρ = .done ρ' ↔ ∃ β, Decl F p v β ∧ ρ' = ρ.apply β := by
+    mPat F C false p true (.direct (.tmp v)) ρ = .done ρ' ↔ ∃ β, Decl F p v β ∧ ρ' = ρ.apply β := by
   cases p with
   | seq pre rest post => simp [notSeq] at hflat
-  | _ => exact nonlast_alt_spec_partial F _ v ρ ρ' rfl rfl hv
+  | _ => exact nonlast_alt_spec_partial F C _ v ρ ρ' rfl rfl hv
 
 /-- an alternative that matches wins over the alternatives after it, with exactly its bindings -/
-theorem first_alt_wins_partial (F : FloatOps) (p : Pat) (alts : List Alt) (v : Val) (ρ : Env) (β : Writes)
+theorem first_alt_wins_partial (F : FloatOps) (C : Cfg) (p : Pat) (alts : List Alt) (v : Val) (ρ : Env) (β : Writes)
     (hw : wf p = true) (he : earlyFree p = true) (hv : noRange v = true) (hd : Decl F p v β) :
-    mAlts F (.one p :: alts) (.tmp v) ρ = .matched (ρ.apply β) := by
+    mAlts F C (.one p :: alts) (.tmp v) ρ = .matched (ρ.apply β) := by
   cases alts with
   | nil =>
-    have := (pat_spec F p v ρ (ρ.apply β) true hw hv).2 ⟨β, hd, rfl⟩
+    have := (pat_spec F C p v ρ (ρ.apply β) true hw hv).2 ⟨β, hd, rfl⟩
     simp [mAlts, mAlt, this]
   | cons b rest =>
-    have := (nonlast_alt_spec_partial F p v ρ (ρ.apply β) hw he hv).2 ⟨β, hd, rfl⟩
+    have := (nonlast_alt_spec_partial F C p v ρ (ρ.apply β) hw he hv).2 ⟨β, hd, rfl⟩
     simp [mAlts, mAlt, this]
 
 /-! ## frame: what a pattern — matching or failing — can write -/
@@ -384,51 +409,51 @@ theorem first_alt_wins_partial (F : FloatOps) (p : Pat) (alts : List Alt) (v : V
 path, with the subject in a register or a temporary: the registers afterwards differ from the
 registers before only on the pattern's own variables.  (A failed alternative may leave *some* of
 them written — `failed_alt_writes_witness` — but never anything else.) -/
-theorem pattern_frame (F : FloatOps) (p : Pat) (la il : Bool) (a : Acc) (ρ ρ' : Env)
-    (h : mPat F la p il a ρ = .ok ρ' ∨ mPat F la p il a ρ = .done ρ' ∨ mPat F la p il a ρ = .fail ρ') :
+theorem pattern_frame (F : FloatOps) (C : Cfg) (p : Pat) (la il : Bool) (a : Acc) (ρ ρ' : Env)
+    (h : mPat F C la p il a ρ = .ok ρ' ∨ mPat F C la p il a ρ = .done ρ' ∨ mPat F C la p il a ρ = .fail ρ') :
     ∀ y, y ∉ patVars p → ρ' y = ρ y := by
-  have hf := frame_pat F p la il a ρ
+  have hf := frame_pat (C := C) F p la il a ρ
   rcases h with h | h | h <;> (rw [h] at hf; exact hf)
 
-theorem failed_pattern_frame (F : FloatOps) (p : Pat) (la il : Bool) (a : Acc) (ρ ρ' : Env)
-    (h : mPat F la p il a ρ = .fail ρ') : ∀ y, y ∉ patVars p → ρ' y = ρ y :=
-  pattern_frame F p la il a ρ ρ' (Or.inr (Or.inr h))
+theorem failed_pattern_frame (F : FloatOps) (C : Cfg) (p : Pat) (la il : Bool) (a : Acc) (ρ ρ' : Env)
+    (h : mPat F C la p il a ρ = .fail ρ') : ∀ y, y ∉ patVars p → ρ' y = ρ y :=
+  pattern_frame F C p la il a ρ ρ' (Or.inr (Or.inr h))
 
 def altsVars : List Alt → List Name
   | [] => []
   | a :: as => altVars a ++ altsVars as
 
-theorem alt_frame (F : FloatOps) (la : Bool) (a : Alt) (s : Src) (ρ : Env) :
-    Within (altVars a) ρ (mAlt F la a s ρ) := by
+theorem alt_frame (F : FloatOps) (C : Cfg) (la : Bool) (a : Alt) (s : Src) (ρ : Env) :
+    Within (altVars a) ρ (mAlt F C la a s ρ) := by
   cases a with
   | one p => exact frame_pat F p la true (.direct s) ρ
   | many ps => exact frame_pats F ps la s 0 true ρ
 
 /-- the alternatives of an arm, matched or not, write only variables of that arm's patterns -/
-theorem arm_frame (F : FloatOps) : ∀ (alts : List Alt) (s : Src) (ρ ρ' : Env),
-    (mAlts F alts s ρ = .matched ρ' ∨ mAlts F alts s ρ = .unmatched ρ') →
+theorem arm_frame (F : FloatOps) (C : Cfg) : ∀ (alts : List Alt) (s : Src) (ρ ρ' : Env),
+    (mAlts F C alts s ρ = .matched ρ' ∨ mAlts F C alts s ρ = .unmatched ρ') →
     ∀ y, y ∉ altsVars alts → ρ' y = ρ y
   | [], s, ρ, ρ', h => by
     simp [mAlts] at h; subst h; intro _ _; rfl
   | [a], s, ρ, ρ', h => by
-    have hf := (alt_frame F true a s ρ).mono (ys := altsVars [a]) (by intro x hx; simp [altsVars, hx])
+    have hf := (alt_frame F C true a s ρ).mono (ys := altsVars [a]) (by intro x hx; simp [altsVars, hx])
     simp only [mAlts] at h
-    cases hr : mAlt F true a s ρ with
+    cases hr : mAlt F C true a s ρ with
     | ok ρ1 => rw [hr] at h hf; simp at h; subst h; exact hf
     | done ρ1 => rw [hr] at h hf; simp at h; subst h; exact hf
     | fail ρ1 => rw [hr] at h hf; simp at h; subst h; exact hf
     | err e => rw [hr] at h; simp at h
   | a :: b :: rest, s, ρ, ρ', h => by
-    have hf := (alt_frame F false a s ρ).mono (ys := altsVars (a :: b :: rest))
+    have hf := (alt_frame F C false a s ρ).mono (ys := altsVars (a :: b :: rest))
       (by intro x hx; simp [altsVars, hx])
     have hrest : ∀ ρ1, Agree (altsVars (a :: b :: rest)) ρ ρ1 →
-        (mAlts F (b :: rest) s ρ1 = .matched ρ' ∨ mAlts F (b :: rest) s ρ1 = .unmatched ρ') →
+        (mAlts F C (b :: rest) s ρ1 = .matched ρ' ∨ mAlts F C (b :: rest) s ρ1 = .unmatched ρ') →
         ∀ y, y ∉ altsVars (a :: b :: rest) → ρ' y = ρ y := by
       intro ρ1 h1 h2 y hy
-      have := arm_frame F (b :: rest) s ρ1 ρ' h2 y (by intro hx; exact hy (by simp [altsVars] at hx ⊢; right; exact hx))
+      have := arm_frame F C (b :: rest) s ρ1 ρ' h2 y (by intro hx; exact hy (by simp [altsVars] at hx ⊢; right; exact hx))
       rw [this, h1 y hy]
     simp only [mAlts] at h
-    cases hr : mAlt F false a s ρ with
+    cases hr : mAlt F C false a s ρ with
     | ok ρ1 => rw [hr] at h hf; exact hrest ρ1 hf h
     | done ρ1 => rw [hr] at h hf; simp at h; subst h; exact hf
     | fail ρ1 => rw [hr] at h hf; exact hrest ρ1 hf h
@@ -479,7 +504,7 @@ def isU : Val → Bool
 
 /-- F-C03-1: `match 1` / `(a, rest...) then …` / `else …` raises; the guide's answer is the else arm -/
 theorem ellipsis_on_number_witness :
-    isErr .geNull (evalMatch F0 (.expr (n 1))
+    isErr .geNull (evalMatch F0 Cfg.recorded (.expr (n 1))
       [⟨[.one (.seq [.id 0 none] (some (some 1)) [])], none⟩, ⟨[], none⟩] ρ0).out = true ∧
     ¬ ∃ β, Decl F0 (.seq [.id 0 none] (some (some 1)) []) (n 1) β := by
   refine ⟨by decide, ?_⟩
@@ -489,32 +514,42 @@ theorem ellipsis_on_number_witness :
 /-- F-C03-2: `x = (1, 2); match x` / `(x, y) then …`: the first write destroys the subject, the
 second element is read from the number 1 -/
 theorem subject_clobber_witness :
-    isErr .index (evalMatch F0 (.var 9)
+    isErr .index (evalMatch F0 Cfg.recorded (.var 9)
       [⟨[.one (.seq [.id 9 none, .id 1 none] none [])], none⟩] (ρ0.set 9 (.tuple [n 1, n 2]))).out = true ∧
-    isArm 0 (evalMatch F0 (.expr (.tuple [n 1, n 2]))
+    isArm 0 (evalMatch F0 Cfg.recorded (.expr (.tuple [n 1, n 2]))
       [⟨[.one (.seq [.id 9 none, .id 1 none] none [])], none⟩] ρ0).out = true := by
   constructor <;> decide
 
 /-- F-C03-3: `match ((1, 2), 3)` / `((1, 2), 4) or 5 then …` / `else …` takes arm 0 although 3 ≠ 4;
 as the only (last) alternative the same pattern correctly falls to `else` -/
 theorem nonlast_alt_early_exit_witness :
-    isArm 0 (evalMatch F0 (.expr (.tuple [.tuple [n 1, n 2], n 3]))
+    isArm 0 (evalMatch F0 Cfg.recorded (.expr (.tuple [.tuple [n 1, n 2], n 3]))
       [⟨[.one (.seq [.seq [ln 1, ln 2] none [], ln 4] none []), .one (ln 5)], none⟩, ⟨[], none⟩] ρ0).out = true ∧
-    isArm 1 (evalMatch F0 (.expr (.tuple [.tuple [n 1, n 2], n 3]))
+    isArm 1 (evalMatch F0 Cfg.recorded (.expr (.tuple [.tuple [n 1, n 2], n 3]))
       [⟨[.one (.seq [.seq [ln 1, ln 2] none [], ln 4] none [])], none⟩, ⟨[], none⟩] ρ0).out = true := by
+  constructor <;> decide
+
+/-- with `requests/C03-fix-3.diff` (`nestedLast`) the same match falls to `else`, and
+`((1, 2), x) or 5` against `((1, 2), 7)` binds `x` -/
+theorem nonlast_alt_repaired_witness :
+    isArm 1 (evalMatch F0 Cfg.repaired (.expr (.tuple [.tuple [n 1, n 2], n 3]))
+      [⟨[.one (.seq [.seq [ln 1, ln 2] none [], ln 4] none []), .one (ln 5)], none⟩, ⟨[], none⟩] ρ0).out = true ∧
+    (let r := evalMatch F0 Cfg.repaired (.expr (.tuple [.tuple [n 1, n 2], n 7]))
+      [⟨[.one (.seq [.seq [ln 1, ln 2] none [], .id 0 none] none []), .one (ln 5)], none⟩, ⟨[], none⟩] ρ0
+     isArm 0 r.out = true ∧ isInt 7 (outEnv r.out 0) = true) := by
   constructor <;> decide
 
 /-- what the code does with the bindings of a failed alternative: they stay written.
 `(a, 1)` against `(5, 2)` fails after `a` has received 5; the registers keep it (observable after
 the match when `a` is also a variable of the enclosing scope; the guide is silent). -/
 theorem failed_alt_writes_witness :
-    let r := evalMatch F0 (.expr (.tuple [n 5, n 2])) [⟨[.one (.seq [.id 0 none, ln 1] none [])], none⟩] ρ0
+    let r := evalMatch F0 Cfg.recorded (.expr (.tuple [n 5, n 2])) [⟨[.one (.seq [.id 0 none, ln 1] none [])], none⟩] ρ0
     isNone r.out = true ∧ isInt 5 (outEnv r.out 0) = true ∧ isU (outEnv r.out 1) = true := by
   decide
 
 /-! ### non-vacuity -/
 
-example : mPat F0 true (.seq [.id 0 none] (some (some 1)) []) true (.direct (.tmp (.tuple [n 1, n 2, n 3]))) ρ0
+example : mPat F0 Cfg.recorded true (.seq [.id 0 none] (some (some 1)) []) true (.direct (.tmp (.tuple [n 1, n 2, n 3]))) ρ0
     = .ok ((ρ0.set 0 (n 1)).set 1 (.tuple [n 2, n 3])) := by
   simp [mPat, container, Src.rd, sizeCheck, vmSize, restCount, mPats, fetch, tempIndex, sidx, tyFail, sliceFrom, n]
 
@@ -524,8 +559,8 @@ example : DeclSeq F0 [.id 0 none] (some (some 1)) [] [n 1, n 2] (fun i j => .tup
     [(0, n 1), (1, .tuple [n 2])] :=
   ⟨[n 1], [n 2], [], [(0, n 1)], [], rfl, by simp,
     ⟨n 1, [], [(0, n 1)], [], rfl, ⟨rfl, rfl⟩, ⟨rfl, rfl⟩, rfl⟩, ⟨rfl, rfl⟩, by simp [restWrites]⟩
-example : Selects F0 ⟨[], none⟩ (.tmp .null) ρ0 ρ0 := Or.inl ⟨rfl, rfl⟩
-example : Skips F0 ⟨[.one (ln 1)], none⟩ (.tmp (n 2)) ρ0 ρ0 :=
+example : Selects F0 Cfg.recorded ⟨[], none⟩ (.tmp .null) ρ0 ρ0 := Or.inl ⟨rfl, rfl⟩
+example : Skips F0 Cfg.recorded ⟨[.one (ln 1)], none⟩ (.tmp (n 2)) ρ0 ρ0 :=
   ⟨by simp, Or.inl (by
     have : litEq F0 (.num (.i 1)) (n 2) = false := by decide
     simp [mAlts, mAlt, mPat, fetch, Src.rd, ln, this])⟩
